@@ -318,7 +318,15 @@ Fixpoint wf_seg (lit_ok : char -> bool) (s : seg) {struct s} : bool :=
   | SArr n idx =>
       negb (match n with [] => true | _ => false end) && forallb name_char n
       && forallb (wf_seg index_lit_char) idx && adjacency_ok idx
-  | SCmd sc => wf_items true sc
+  | SCmd sc =>
+      (fix go (l : list item) : bool :=
+         match l with
+         | [] => true
+         | x :: r => match r with
+                     | [] => wf_item true true x
+                     | _ :: _ => wf_item true false x && go r
+                     end
+         end) sc
   end
 with wf_word (w : wordc) {struct w} : bool :=
   match w with
@@ -351,11 +359,13 @@ with wf_item (nested : bool) (last : bool) (i : item) {struct i} : bool :=
       && (str_eqb term [c_nl] || (last && negb nested && str_eqb term []))
   | IEmpty pre term =>
       forallb is_pre_char pre && (str_eqb term [c_semi] || str_eqb term [c_nl])
-  end
-with wf_items (nested : bool) (l : list item) {struct l} : bool :=
+  end.
+Fixpoint wf_items (nested : bool) (l : list item) {struct l} : bool :=
   match l with
   | [] => true
-  | [x] => wf_item nested true x
-  | x :: r => wf_item nested false x && wf_items nested r
+  | x :: r => match r with
+              | [] => wf_item nested true x
+              | _ :: _ => wf_item nested false x && wf_items nested r
+              end
   end.
 Definition wf (sc : list item) : bool := wf_items false sc.
